@@ -127,7 +127,7 @@ def main(argv):
     out['wall_s'] = time.time() - t0
     tmp = outfile + '.tmp'
     with open(tmp, 'w') as f:
-        json.dump(out, f)
+        json.dump(out, f, default=lambda o: o.item() if hasattr(o, 'item') and getattr(o, 'ndim', 1) == 0 else repr(o))
     os.replace(tmp, outfile)
 
 
